@@ -503,6 +503,12 @@ dgsitrf(superlu_options_t *options, SuperMatrix *A, int relax, int panel_size,
 		    }
 		    xlsub[jj + 1]++;
 		    assert(xlusup[jj]==xlusup[jj+1]);
+		    if (xlusup[jj] >= Glu->nzlumax) { /* room for the fill-in value */
+			int_t nzlumax = Glu->nzlumax;
+			int error = dLUMemXpand(jj, xlusup[jj], LUSUP, &nzlumax, Glu);
+			if (error) { *info = error; return; }
+			lsub = Glu->lsub;
+		    }
 		    xlusup[jj + 1]++;
 		    ((double *) Glu->lusup)[xlusup[jj]] = zero;
 
